@@ -81,3 +81,35 @@ instance : Scalar Rat where
   decLt := fun a b => inferInstanceAs (Decidable (a < b))
   decLe := fun a b => inferInstanceAs (Decidable (a ≤ b))
   isZero := fun a => a == 0
+
+/-- the elementary functions overloaded on observables -/
+class Elem (α : Type) extends Transc α where
+  sin : α → α
+  cos : α → α
+  tan : α → α
+  sinh : α → α
+  cosh : α → α
+  tanh : α → α
+  arcsin : α → α
+  arccos : α → α
+  arctan : α → α
+  arcsinh : α → α
+  arccosh : α → α
+  arctanh : α → α
+  /-- `x ** y` for real `x > 0` (or integer-valued `y`) -/
+  pow : α → α → α
+
+instance : Elem Float where
+  sin := Float.sin
+  cos := Float.cos
+  tan := Float.tan
+  sinh := Float.sinh
+  cosh := Float.cosh
+  tanh := Float.tanh
+  arcsin := Float.asin
+  arccos := Float.acos
+  arctan := Float.atan
+  arcsinh := Float.asinh
+  arccosh := Float.acosh
+  arctanh := Float.atanh
+  pow := Float.pow
